@@ -94,17 +94,21 @@ def splitEq : List Char → Option (List Char × List Char)
 /-- `_get_option_tuples` (allow_abbrev is True: `CLIParser.__init` is never called, the default applies) -/
 def optionTuples (strs : List (String × Target)) (cs : List Char) : List (Target × String × Option String) :=
   match cs with
-  | '-' :: '-' :: _ =>
-    let pe : List Char × Option String :=
-      match splitEq cs with
-      | some (a, b) => (a, some (String.ofList b))
-      | none => (cs, none)
-    (strs.filter (fun x => pe.1.isPrefixOf x.1.toList)).map (fun x => (x.2, x.1, pe.2))
-  | '-' :: _ :: _ =>
-    strs.filterMap (fun x =>
-      if x.1.toList == cs.take 2 then some (x.2, x.1, some (String.ofList (cs.drop 2)))
-      else if cs.isPrefixOf x.1.toList then some (x.2, x.1, none)
-      else none)
+  | '-' :: c :: _ =>
+    if c == '-' then
+      -- two prefix characters: split at the `=`, every option string that starts with the part before it
+      let pe : List Char × Option String :=
+        match splitEq cs with
+        | some (a, b) => (a, some (String.ofList b))
+        | none => (cs, none)
+      (strs.filter (fun x => pe.1.isPrefixOf x.1.toList)).map (fun x => (x.2, x.1, pe.2))
+    else
+      -- one prefix character: the option string made of the first two characters (the rest is its explicit
+      -- argument), and every option string that starts with the whole token
+      strs.filterMap (fun x =>
+        if x.1.toList == cs.take 2 then some (x.2, x.1, some (String.ofList (cs.drop 2)))
+        else if cs.isPrefixOf x.1.toList then some (x.2, x.1, none)
+        else none)
   | _ => []
 
 def classifyTok (strs : List (String × Target)) (t : String) : Item :=
@@ -368,18 +372,20 @@ def runSegs (bind : Bind) (strs : List (String × Target)) : List (OptItem × Ru
 def requiredOK (p : PSpec) (b : Ns) : Bool :=
   p.opts.all (fun o => !o.required || b.any (fun q => q.1 == o.dest))
 
+/-- the end of `_parse_known_args` / `parse_args`: "the following arguments are required", "unrecognized arguments" -/
+def finish (p : PSpec) (r : Except PErr PState) : Except PErr Ns :=
+  match r with
+  | .error x => .error x
+  | .ok st => if !st.ps.isEmpty || st.extras || !requiredOK p st.ns then .error .cliError else .ok st.ns
+
 /-- `parse_args`: classification of all tokens (an ambiguous prefix is an error at once), the loop, the positionals
-after the last option, then "the following arguments are required" / "unrecognized arguments" -/
+after the last option, then the final checks -/
 def engineItems (bind : Bind) (p : PSpec) (items : List Item) : Except PErr Ns :=
   if items.any Item.isAmbiguous then .error .cliError
   else
     match consumePosX bind (segs items).1 (segs items).2.isEmpty ⟨p.poss, [], false, []⟩ with
     | .error x => .error x
-    | .ok st0 =>
-      match runSegs bind p.strings (segs items).2 st0 with
-      | .error x => .error x
-      | .ok st =>
-        if !st.ps.isEmpty || st.extras || !requiredOK p st.ns then .error .cliError else .ok st.ns
+    | .ok st0 => finish p (runSegs bind p.strings (segs items).2 st0)
 
 def engine (bind : Bind) (p : PSpec) (argv : List String) : Except PErr Ns :=
   engineItems bind p (itemize p.strings argv)
